@@ -289,6 +289,12 @@ class LeastSquares(OptimizerGeneric):
                  else np.inf for var in self.problem.variables]
         bounds = (lower, upper)
 
+        # a start left on a bound by an earlier run can read back a rounding
+        # error outside of it (scaled variables), which scipy rejects
+        x0 = [float(np.clip(x, lo, hi))
+              if np.isclose(x, np.clip(x, lo, hi), rtol=1e-9, atol=1e-12)
+              else x for x, lo, hi in zip(x0, lower, upper)]
+
         if disp:
             verbose = 2
         else:
